@@ -199,6 +199,9 @@ func (p *pathCtx) ufApply(name string, arg value, kind string) *sym {
 	case "bool":
 		return &sym{s: sBool, e: app}
 	case "iri":
+		if !seen {
+			p.noteIRIAtom(app)
+		}
 		return &sym{s: sAtom, e: app, pc: p}
 	default:
 		return &sym{s: sBV, w: 64, e: app}
